@@ -946,6 +946,25 @@ def check_block_table(idx: Index, rep: Report) -> None:
         raise AnalysisError(f"{PC}: no one-argument pop of forward_block_references found (expected in _parse_block)")
 
 
+def check_typed_integer(idx: Index, rep: Report) -> None:
+    """_parse_typed_integer is what makes an integer from the text safe to pack: the dense-array reader and the typed-integer
+    readers hand its result to from_list / IntegerAttr, which raise ValueError for a value outside the type's range.  Every
+    value it returns must therefore have passed `type.verify_value` (whose VerifyException is turned into a diagnostic)."""
+    r = rep.rule("C07.R10", "every path of AttrParser._parse_typed_integer to a return passes the range check type.verify_value (inside the try that turns its VerifyException into a diagnostic)", floor=1)
+    f = idx.func("xdsl/parser/attribute_parser.py", "AttrParser._parse_typed_integer")
+    cfg = CFG(f.node)
+    tname = f.node.args.args[1].arg
+    checks = {cfg.node_of(c) for c in calls_in(f.node) if call_attr(c) == "verify_value" and isinstance(c.func, ast.Attribute) and unparse(c.func.value) == tname}
+    if not checks:
+        r.fail(f.fq, Finding("C07.R10", f.fq, "range-check-missing", "_parse_typed_integer no longer calls type.verify_value: out-of-range literals reach from_list / IntegerAttr and raise ValueError", f.loc))
+        return
+    leak = cfg.path_avoiding(cfg.entry, cfg.exit, lambda x: x.id in checks, follow_exc=False)
+    if leak is None:
+        r.ok(f.fq, f"{f.loc} every returned value passed {tname}.verify_value")
+    else:
+        r.fail(f.fq, Finding("C07.R10", f.fq, "range-check-bypassed", "a path returns a value that did not pass the range check (" + " -> ".join(cfg.describe(leak)[-3:]) + "): callers pack the result without a further check, so a value outside the type's range (`true` for `si1` / a zero-width type, ...) escapes as ValueError instead of a diagnostic", f.loc))
+
+
 def check(idx: Index, rep: Report, tier: str) -> str:
     rep.run(check_redos, idx, rep, tier)
     rep.run(check_unicode_predicates, idx, rep)
@@ -959,6 +978,7 @@ def check(idx: Index, rep: Report, tier: str) -> str:
     rep.run(check_find_sentinel, idx, rep)
     rep.run(check_quadratic, idx, rep)
     rep.run(check_block_table, idx, rep)
+    rep.run(check_typed_integer, idx, rep)
     return (
         "Regular-language ambiguity analysis of every regex of the lexer/parser modules (ReDoS), Unicode-width check of "
         "the lexer's digit dispatch, and a guard / sibling-agreement classification of every raise, assert and partial "
